@@ -7,7 +7,8 @@ from . import _solverprop as sp
 ID = "C13"
 LEVEL = "exploration"
 RULE = (
-    "Solver histories (random + cache-directed scenario rounds, <=40 steps, add / all queries with and without extras / simplify / "
+    "Solver histories (random + cache-directed scenario rounds + directed scenarios 'queries with refutable extra constraints, then the same "
+    "queries without them, on the solver and a branch' and 'exhaust two variable groups, then bridge them'; <=40 steps, add / all queries with and without extras / simplify / "
     "branch / merge / combine / split / blank_copy) on: SolverReplacement() with its default safe settings, SolverReplacement("
     "auto_replace=False), SolverHybrid() queried with exact=None/True (exact mode) - all checked for *equality* with the brute-force "
     "model set over 2^17 assignments - and SolverHybrid queried with exact=False (approximate mode), checked for *containment*: "
@@ -39,8 +40,17 @@ def nontrivial(res):
 
 
 def run_shard(shard, ctx):
+    from hypothesis import strategies as st
+
+    from .. import solver_machine as sm
+
     groups = (*GROUPS, "sat-heavy") if shard.get("approx") else GROUPS
-    sp.run_random(shard, ctx, groups, nontrivial, exact_kw=shard.get("exact_kw"), extra=[f"mode:{'approx' if shard.get('approx') else 'exact'}"])
+    # the last shard of every configuration runs the directed scenarios (extras must not outlive their query; exhaust then bridge)
+    strategy = None
+    if shard["i"] == 2:
+        strategy = st.one_of(sm.scenario_extras_do_not_stick(shard.get("exact_kw")), sm.scenario_extras_do_not_stick(shard.get("exact_kw")), sm.scenario_exhaust_then_bridge(shard.get("exact_kw")))
+    sp.run_random(shard, ctx, groups, nontrivial, exact_kw=shard.get("exact_kw"), strategy=strategy,
+                  extra=[f"mode:{'approx' if shard.get('approx') else 'exact'}", *(["scenario"] if strategy is not None else [])])
 
 
 replay = sp.replay
